@@ -135,6 +135,7 @@ def _join_geom(V):
     except PyExc:
         V.ensure("post/returns", z3.BoolVal(False))
         return
+    V.ensure("post/returns", z3.BoolVal(True))
     if any(e[0] == "np-division-by-zero" for e in st.trace):
         return
     rc = res.fields["_coords"].data
